@@ -442,6 +442,9 @@ func propC03(c *Ctx) {
 		}
 	})
 	c.Rule("C03.R3", func() { digestParamRule(c, "C03.R3") })
+	// the leaf / root commit to the claimed fields byte for byte (no case folding, trimming,
+	// truncation or re-encoding on the way into the digest): pinned layouts
+	c.Rule("C03.R5", func() { layoutRule(c, "C03.R5", []string{"GenerateWithdrawalHash", "GenerateOutputRoot"}) })
 	c.Rule("C03.R4", func() {
 		v := c.Method(hostTypes, "MsgFinalizeTokenWithdrawal", "Validate")
 		o := c.Ob("C03.R4", "MsgFinalizeTokenWithdrawal.Validate: length and non-zero discipline on the nil path")
